@@ -37,7 +37,7 @@ func indexType(rt reflect.Type) (im map[string]reflect.StructField) {
 				parts := strings.Split(k, ",")
 				switch parts[0] {
 				case "":
-					k = strings.ToLower(f.Name)
+					k = f.Name
 				case "-":
 					if 1 < len(parts) {
 						k = "-"
